@@ -2,10 +2,10 @@ CHECK = dict(
     level='model_checking', engine='vsched',
     parts=[dict(name='c04', src=['harness/c04_messageq.c'], workers=64,
                 objs=[('@VERIF@/harness/c04_scn.c', ['-fsanitize=thread'])],
-                deadline=dict(quick=120, thorough=1500)),
+                deadline=dict(quick=400, thorough=3000)),
            dict(name='c04deep', src=['harness/c04_deep.c'], workers=12,
                 objs=[('@REPO@/librfn/messageq.c', ['-fsanitize=thread'])],
-                deadline=dict(quick=60, thorough=120))],
+                deadline=dict(quick=400, thorough=1800))],
     rule='stateless exploration of every schedule of the real messageq.c (compiled with -fsanitize=thread against the '
          'replacement runtime engine/vsched.c: a scheduling point before every atomic operation, interrupt handlers injected '
          'as nested run-to-completion calls, spins made blocking), depth-first over choice sequences with a visited set of '
